@@ -317,6 +317,9 @@ def check(repo, rep):
                 assign = {('p', 'index'): slice(a_, b_)}
                 if rf is not None:
                     assign[('attr', ('attr', ('self',), rf), 'sampling_rate')] = rate_
+                    # a region whose duration is not a whole number of milliseconds (138 samples at 8 kHz = 17.25 ms; 3 samples): what the
+                    # view returns for given bounds must not depend on it (the seconds view clips to the data)
+                    assign[('attr', ('attr', ('self',), rf), 'duration')] = (0.01725, 0.000375, 2.0)[(a_ if isinstance(a_, int) else 0) % 3]
                 try:
                     hit = [l for l in mv if holds(l, evaluator(assign))]
                     if len(hit) != 1:
